@@ -346,6 +346,7 @@ var profC13 = profile{
 			c.Setups = append(c.Setups, pick(t, "force2fa", "totp", "sms"))
 		}
 		c.EmailAuth = chance(t, "emailauth13", 55)
+		c.App2FAHook = chance(t, "app2fahook", 30)
 		if c.Middleware == "remember" && chance(t, "nilstate13", 30) {
 			c.NilEmptyState = true
 		}
